@@ -544,9 +544,16 @@ package netty
 //@   ensures winner_order: implies(evres(0, 0), first("net.Conn.Close") < first("context.CancelFunc") && first("context.CancelFunc") < first("Pipeline.FireChannelInactive") && evrecv(first("net.Conn.Close")) == old(c.transport) && evarg(first("context.CancelFunc"), 0) == old(c.cancel) && evrecv(first("Pipeline.FireChannelInactive")) == old(c.pipeline))
 //@   ensures inactive_carries_the_winning_error: implies(evres(0, 0), evarg(first("Pipeline.FireChannelInactive"), 0) == err)
 //@   ensures sync_channel_does_not_wait: implies(evres(0, 0) && old(c.writeQueue) == nil, count("load c.running") == 0 && count("time.Sleep") == 0)
-//@   ensures waits_for_sender: implies(evres(0, 0) && old(c.writeQueue) != nil && old(c.untilWrite), evis(first("net.Conn.Close") - 1, "load c.running") && evres(first("net.Conn.Close") - 1, 0) == 0)
-//@   ensures observes_queue_empty_then_idle@C06: implies(evres(0, 0) && old(c.writeQueue) != nil && old(c.untilWrite), evis(first("net.Conn.Close") - 2, "len c.writeQueue") && evres(first("net.Conn.Close") - 2, 0) == 0)
+//@   ensures waits_for_sender: implies(evres(0, 0) && old(c.writeQueue) != nil && old(c.untilWrite), evis(first("net.Conn.Close") - 2, "load c.running") && evres(first("net.Conn.Close") - 2, 0) == 0)
+//@   ensures observes_queue_empty_then_idle@C06: implies(evres(0, 0) && old(c.writeQueue) != nil && old(c.untilWrite), evis(first("net.Conn.Close") - 3, "len c.writeQueue") && evres(first("net.Conn.Close") - 3, 0) == 0)
+//@   ensures error_published_before_cancel@C11_C12: implies(evres(0, 0), count("Store") == 1 && first("Store") < first("context.CancelFunc"))
 //@ order (*channel).Close: "cas c.closed" dominates "net.Conn.Close"
+
+//@ property C01 C02 C05 C06 C07 C09 C10 C11 C12 C18
+//@ func (*channel).loadCloseErr
+//@   requires c != nil
+//@   modifies nothing
+//@   ensures one_atomic_load: nemitted() == 1 && evis(0, "Load")
 
 // The background sender. One activation owns the sender token (running == 1) from its start
 // until it stores idle; it drains the queue in FIFO batches.
@@ -591,7 +598,7 @@ package netty
 //@   ensures async_never_touches_transport: implies(old(c.writeQueue) != nil, count("net.Conn.Write") == 0 && count("Transport.Flush") == 0 && count("lock c.writeLock") == 0)
 //@   ensures sync_never_enqueues: implies(old(c.writeQueue) == nil, count("send c.writeQueue") == 0 && count("cas c.running") == 0)
 //@   ensures error_means_not_enqueued: implies(err != nil, count("send c.writeQueue") == 0)
-//@   ensures async_success_means_enqueued: implies(old(c.writeQueue) != nil && err == nil && count("recv c.ctx.Done()") == 0 && old(c.closeErr) == nil, count("send c.writeQueue") == 1)
+//@   ensures async_success_means_enqueued: implies(old(c.writeQueue) != nil && err == nil && count("recv c.ctx.Done()") == 0 , count("send c.writeQueue") == 1)
 //@   ensures sync_locked_write_then_flush: implies(old(c.writeQueue) == nil && count("net.Conn.Write") == 1, evis(0, "lock c.writeLock") && evrecv(first("net.Conn.Write")) == old(c.transport) && sameslice(evarg(first("net.Conn.Write"), 0), p) && count("unlock c.writeLock") == 1 && evis(nemitted()-1, "unlock c.writeLock") && count("lock c.writeLock") == 1)
 //@   ensures sync_flush_iff_written: implies(old(c.writeQueue) == nil && count("net.Conn.Write") == 1, (count("Transport.Flush") == 1) == (evres(first("net.Conn.Write"), 1) == nil) && implies(count("Transport.Flush") == 1, first("Transport.Flush") > first("net.Conn.Write") && first("Transport.Flush") < last("unlock c.writeLock")))
 //@   ensures sync_result: implies(old(c.writeQueue) == nil && count("net.Conn.Write") == 1 && count("Transport.Flush") == 0, err == evres(first("net.Conn.Write"), 1)) && implies(count("Transport.Flush") == 1, err == evres(first("Transport.Flush"), 0))
@@ -604,7 +611,7 @@ package netty
 //@   ensures async_never_touches_transport: implies(old(c.writeQueue) != nil, count("BuffersWriter.Writev") == 0 && count("Transport.Flush") == 0 && count("lock c.writeLock") == 0)
 //@   ensures sync_never_enqueues: implies(old(c.writeQueue) == nil, count("send c.writeQueue") == 0 && count("cas c.running") == 0)
 //@   ensures error_means_not_enqueued: implies(err != nil, count("send c.writeQueue") == 0)
-//@   ensures async_success_means_enqueued: implies(old(c.writeQueue) != nil && err == nil && count("recv c.ctx.Done()") == 0 && old(c.closeErr) == nil, count("send c.writeQueue") == 1)
+//@   ensures async_success_means_enqueued: implies(old(c.writeQueue) != nil && err == nil && count("recv c.ctx.Done()") == 0 , count("send c.writeQueue") == 1)
 //@   ensures sync_locked_write_then_flush: implies(old(c.writeQueue) == nil && count("BuffersWriter.Writev") == 1, evis(0, "lock c.writeLock") && evrecv(first("BuffersWriter.Writev")) == old(c.transport) && sameslice(evarg(first("BuffersWriter.Writev"), 0), p) && count("unlock c.writeLock") == 1 && evis(nemitted()-1, "unlock c.writeLock") && count("lock c.writeLock") == 1)
 //@   ensures sync_flush_iff_written: implies(old(c.writeQueue) == nil && count("BuffersWriter.Writev") == 1, (count("Transport.Flush") == 1) == (evres(first("BuffersWriter.Writev"), 1) == nil) && implies(count("Transport.Flush") == 1, first("Transport.Flush") > first("BuffersWriter.Writev") && first("Transport.Flush") < last("unlock c.writeLock")))
 //@   ensures sync_result: implies(old(c.writeQueue) == nil && count("BuffersWriter.Writev") == 1 && count("Transport.Flush") == 0, err == evres(first("BuffersWriter.Writev"), 1)) && implies(count("Transport.Flush") == 1, err == evres(first("Transport.Flush"), 0))
@@ -618,7 +625,7 @@ package netty
 //@   ensures async_never_touches_transport: implies(old(c.writeQueue) != nil, count("net.Conn.Write") == 0 && count("Transport.Flush") == 0 && count("lock c.writeLock") == 0)
 //@   ensures sync_never_enqueues: implies(old(c.writeQueue) == nil, count("send c.writeQueue") == 0 && count("cas c.running") == 0)
 //@   ensures error_means_not_enqueued: implies(err != nil, count("send c.writeQueue") == 0)
-//@   ensures async_success_means_enqueued: implies(old(c.writeQueue) != nil && err == nil && count("recv c.ctx.Done()") == 0 && old(c.closeErr) == nil, count("send c.writeQueue") == 1)
+//@   ensures async_success_means_enqueued: implies(old(c.writeQueue) != nil && err == nil && count("recv c.ctx.Done()") == 0 , count("send c.writeQueue") == 1)
 //@   ensures sync_locked_write_then_flush: implies(old(c.writeQueue) == nil && count("net.Conn.Write") == 1, evis(0, "lock c.writeLock") && evrecv(first("net.Conn.Write")) == old(c.transport) && sameslice(evarg(first("net.Conn.Write"), 0), p) && count("unlock c.writeLock") == 1 && evis(nemitted()-1, "unlock c.writeLock") && count("lock c.writeLock") == 1)
 //@   ensures sync_flush_iff_written: implies(old(c.writeQueue) == nil && count("net.Conn.Write") == 1, (count("Transport.Flush") == 1) == (evres(first("net.Conn.Write"), 1) == nil) && implies(count("Transport.Flush") == 1, first("Transport.Flush") > first("net.Conn.Write") && first("Transport.Flush") < last("unlock c.writeLock")))
 //@   ensures sync_result: implies(old(c.writeQueue) == nil && count("net.Conn.Write") == 1 && count("Transport.Flush") == 0, err == evres(first("net.Conn.Write"), 1)) && implies(count("Transport.Flush") == 1, err == evres(first("Transport.Flush"), 0))
@@ -632,7 +639,7 @@ package netty
 //@   ensures async_never_touches_transport: implies(old(c.writeQueue) != nil, count("BuffersWriter.Writev") == 0 && count("Transport.Flush") == 0 && count("lock c.writeLock") == 0)
 //@   ensures sync_never_enqueues: implies(old(c.writeQueue) == nil, count("send c.writeQueue") == 0 && count("cas c.running") == 0)
 //@   ensures error_means_not_enqueued: implies(err != nil, count("send c.writeQueue") == 0)
-//@   ensures async_success_means_enqueued: implies(old(c.writeQueue) != nil && err == nil && count("recv c.ctx.Done()") == 0 && old(c.closeErr) == nil, count("send c.writeQueue") == 1)
+//@   ensures async_success_means_enqueued: implies(old(c.writeQueue) != nil && err == nil && count("recv c.ctx.Done()") == 0 , count("send c.writeQueue") == 1)
 //@   ensures sync_locked_write_then_flush: implies(old(c.writeQueue) == nil && count("BuffersWriter.Writev") == 1, evis(0, "lock c.writeLock") && evrecv(first("BuffersWriter.Writev")) == old(c.transport) && sameslice(evarg(first("BuffersWriter.Writev"), 0), pv) && count("unlock c.writeLock") == 1 && evis(nemitted()-1, "unlock c.writeLock") && count("lock c.writeLock") == 1)
 //@   ensures sync_flush_iff_written: implies(old(c.writeQueue) == nil && count("BuffersWriter.Writev") == 1, (count("Transport.Flush") == 1) == (evres(first("BuffersWriter.Writev"), 1) == nil) && implies(count("Transport.Flush") == 1, first("Transport.Flush") > first("BuffersWriter.Writev") && first("Transport.Flush") < last("unlock c.writeLock")))
 //@   ensures sync_result: implies(old(c.writeQueue) == nil && count("BuffersWriter.Writev") == 1 && count("Transport.Flush") == 0, err == evres(first("BuffersWriter.Writev"), 1)) && implies(count("Transport.Flush") == 1, err == evres(first("Transport.Flush"), 0))
@@ -679,7 +686,7 @@ package netty
 //@ func newChannelWith
 //@   requires ctx != nil && writeQueueSize <= 1<<40
 //@   ensures is(result, *channel) && fresh(as(result, *channel)) && as(result, *channel) != nil
-//@   ensures config: as(result, *channel).id == id && as(result, *channel).pipeline == pipeline && as(result, *channel).transport == transport && as(result, *channel).executor == executor && as(result, *channel).untilWrite == untilWrite && as(result, *channel).closed == 0 && as(result, *channel).running == 0 && as(result, *channel).closeErr == nil
+//@   ensures config: as(result, *channel).id == id && as(result, *channel).pipeline == pipeline && as(result, *channel).transport == transport && as(result, *channel).executor == executor && as(result, *channel).untilWrite == untilWrite && as(result, *channel).closed == 0 && as(result, *channel).running == 0
 //@   ensures context: as(result, *channel).ctx != nil && as(result, *channel).cancel != nil
 //@   ensures async: implies(writeQueueSize > 0, as(result, *channel).writeQueue != nil && cap(as(result, *channel).writeQueue) == writeQueueSize && bufInv(as(result, *channel)) && len(as(result, *channel).writeBuffers) == 0 && len(as(result, *channel).recycleBuffers) == 0)
 //@   ensures sync: implies(writeQueueSize <= 0, as(result, *channel).writeQueue == nil)
@@ -771,7 +778,7 @@ package netty
 //@ field channel.untilWrite immutable newChannelWith
 //@ field channel.writeBuffers immutable newChannelWith
 //@ field channel.recycleBuffers immutable newChannelWith
-//@ field channel.closeErr published_by cancel Done
+//@ field channel.closeErr atomic
 //@ field channel.writeLock owned_by (*channel).Writev, (*channel).CtxWrite1, (*channel).CtxWritev, (*channel).write1
 // channel.attachment: outside the statement ("unsynchronised attachment access")
 
